@@ -18,19 +18,22 @@ func init() {
 			`R09.2 raw readers of the inner pool never escape: they flow only into the rs field of a safeKeeperReader, the pool methods return only *safeKeeperReader, and methods of the rs field are called only from the wrapper's own methods; ` +
 			`R09.3 validateBlock restores the reader position (Seek to the offset saved before the first move) on every path after it moved the reader; ` +
 			`R09.4 safeKeeperReader.offset mirrors the wrapped reader's position: Seek stores the result of the inner Seek, Read adds the inner Read's count, and every construction site initialises offset from a Seek on the same reader; R09.6 the chunk size of the bsdiff read cache (lrufile.New) is a constant that divides pwr.BlockSize, so that a chunk-aligned chunk read never covers a block the safekeeper's per-offset validation did not check; R09.7 the data validateBlock hands to the block validator is its buffer cut at the count the read into that buffer returned. ` +
-			`NOT decided: that every damage is noticed (depends on which blocks a patch reads), the verdict cache, reads at EOF of a file whose size is a multiple of 64KiB (defect F13, arithmetic).`,
+			`R09.8 the signed length is enforced: in Read the block validation and the read of the wrapped reader are dominated by a branch on a value computed from the offset and the signed size (so the end of the signed file is an end of file, whatever the block arithmetic says), the buffer handed to the wrapped reader is cut at a bound computed from the signed size, and in validateBlock the error of the read that fills the block buffer is returned only when it is not an end-of-file sentinel (a short block is judged). ` +
+			`NOT decided: that every damage is noticed (depends on which blocks a patch reads), the verdict cache, the arithmetic of the remaining-bytes bound.`,
 		Assumptions: []string{"the wrapped reader is the field rs of safeKeeperReader; the inner pool is the field inner of safeKeeper"},
 		Run:         runC09,
 	})
 }
 
 func runC09(c *core.Ctx) {
+	ruleNoSwallowedLayerErrors(c, "R10.swallow", moduleErrCallee, "/pwr", "/pwr/patcher", "/pwr/bowl", "/pwr/rediff", "/pwr/overlay", "/wire", "/wsync", "/bsdiff", "/bsdiff/lrufile", "/multiread", "/ctxcopy")
 	c.Rule("R09.1", "validate before read")
 	c.Rule("R09.2", "raw readers do not escape the wrapper")
 	c.Rule("R09.3", "position restored after validation")
 	c.Rule("R09.4", "offset mirrors the wrapped reader's position")
 	c.Rule("R09.6", "cache chunks never straddle validated blocks")
 	c.Rule("R09.7", "what is judged is what was read")
+	c.Rule("R09.8", "the signed length is enforced, not only the signed blocks")
 	read := c.P.Fn("pwr", "safeKeeperReader.Read")
 	seek := c.P.Fn("pwr", "safeKeeperReader.Seek")
 	vb := c.P.Fn("pwr", "safeKeeper.validateBlock")
@@ -42,7 +45,28 @@ func runC09(c *core.Ctx) {
 			return
 		}
 	}
-	innerRead := fieldInvoke("rs", "Read")
+	// reads of the wrapped reader: rs.Read(buf), or io.ReadFull / io.ReadAtLeast over it
+	innerRead := anyOf(fieldInvoke("rs", "Read"), func(in ssa.Instruction) bool {
+		cl, ok := in.(*ssa.Call)
+		if !ok || len(cl.Call.Args) < 2 {
+			return false
+		}
+		if n := core.CalleeName(cl); n != "io.ReadFull" && n != "io.ReadAtLeast" {
+			return false
+		}
+		for _, o := range core.Origins(cl.Call.Args[0]) {
+			if mi, ok := o.(*ssa.MakeInterface); ok {
+				o = mi.X
+			}
+			if ci, ok := o.(*ssa.ChangeInterface); ok {
+				o = ci.X
+			}
+			if _, n, ok := core.FieldOf(o); ok && n == "rs" {
+				return true
+			}
+		}
+		return false
+	})
 	innerSeek := fieldInvoke("rs", "Seek")
 	isVB := func(in ssa.Instruction) bool {
 		cl, ok := in.(*ssa.Call)
@@ -361,6 +385,8 @@ func runC09(c *core.Ctx) {
 		c.Floor("R09.7", "block validations in validateBlock", nv, 1)
 	}
 
+	ruleSignedLength(c, read, vb, innerRead, isVB)
+
 	// ---- R09.6: the safekeeper's Read checks the one block that holds the current offset and then forwards the
 	// caller's whole buffer. Its large reads come from the bsdiff cache in front of the old file, in chunks at
 	// chunk-aligned offsets; a chunk must therefore never straddle two signed blocks.
@@ -383,4 +409,235 @@ func runC09(c *core.Ctx) {
 		})
 	}
 	c.Floor("R09.6", "constructions of the old-file cache", nChunk, 1)
+}
+
+// ruleSignedLength is R09.8. The signature vouches for size bytes of each file; block hashes alone do not
+// notice a file that ends early on a block boundary, carries extra bytes inside its last block, or - for a
+// size that is a multiple of the block size - has no block at all at the position where its end is read.
+// (a) Read decides what to do from its position relative to the signed size: the validation and the read of
+//     the wrapped reader are dominated by a branch on a value computed from both the offset and the signed size;
+// (b) the buffer handed to the wrapped reader is cut at a bound computed from the signed size;
+// (c) in validateBlock the error of the read that fills the block buffer is returned only when it is not an
+//     end of file: a block that comes back short is judged (and fails), it does not end the stream cleanly.
+func ruleSignedLength(c *core.Ctx, read, vb *ssa.Function, innerRead, isVB ipred) {
+	rname := core.FnName(read)
+	retSize := map[*ssa.Function]bool{}
+	var signedDep func(v ssa.Value, depth int, seen map[ssa.Value]bool) bool
+	signedDep = func(v ssa.Value, depth int, seen map[ssa.Value]bool) bool {
+		if v == nil || seen[v] {
+			return false
+		}
+		seen[v] = true
+		for _, o := range core.Origins(v) {
+			if seen[o] && o != v {
+				continue
+			}
+			seen[o] = true
+			if _, n, ok := core.FieldOf(o); ok && n == "Size" {
+				return true
+			}
+			switch x := o.(type) {
+			case *ssa.BinOp:
+				if signedDep(x.X, depth, seen) || signedDep(x.Y, depth, seen) {
+					return true
+				}
+			case *ssa.UnOp:
+				if signedDep(x.X, depth, seen) {
+					return true
+				}
+			case *ssa.Extract:
+				if signedDep(x.Tuple, depth, seen) {
+					return true
+				}
+			case *ssa.Call:
+				if x.Call.IsInvoke() && x.Call.Method.Name() == "GetSize" {
+					return true // the size the pool's container declares for the file
+				}
+				if cal := x.Call.StaticCallee(); cal != nil && cal.Blocks != nil && depth > 0 && strings.HasPrefix(core.PkgPathOf(cal), core.Mod) {
+					if done, ok := retSize[cal]; ok {
+						if done {
+							return true
+						}
+						continue
+					}
+					retSize[cal] = false
+					for _, rs := range core.Returns(cal, 0) {
+						if rs.Val != nil && signedDep(rs.Val, depth-1, map[ssa.Value]bool{}) {
+							retSize[cal] = true
+						}
+					}
+					if retSize[cal] {
+						return true
+					}
+				}
+			}
+		}
+		return false
+	}
+	var offsetDep func(v ssa.Value, seen map[ssa.Value]bool) bool
+	offsetDep = func(v ssa.Value, seen map[ssa.Value]bool) bool {
+		if v == nil || seen[v] {
+			return false
+		}
+		seen[v] = true
+		for _, o := range core.Origins(v) {
+			if _, n, ok := core.FieldOf(o); ok && n == "offset" {
+				return true
+			}
+			switch x := o.(type) {
+			case *ssa.BinOp:
+				if offsetDep(x.X, seen) || offsetDep(x.Y, seen) {
+					return true
+				}
+			case *ssa.UnOp:
+				if x.Op != token.MUL && offsetDep(x.X, seen) {
+					return true
+				}
+			}
+		}
+		return false
+	}
+	isCmp := func(v ssa.Value) (*ssa.BinOp, bool) {
+		bo, ok := v.(*ssa.BinOp)
+		if !ok {
+			return nil, false
+		}
+		switch bo.Op {
+		case token.LSS, token.LEQ, token.GTR, token.GEQ, token.EQL, token.NEQ:
+			return bo, true
+		}
+		return nil, false
+	}
+	positionGuard := func(in ssa.Instruction) bool {
+		return hasGuard(in, func(g core.Guard) bool {
+			bo, ok := isCmp(g.Cond)
+			if !ok {
+				return false
+			}
+			sd := signedDep(bo.X, 2, map[ssa.Value]bool{}) || signedDep(bo.Y, 2, map[ssa.Value]bool{})
+			od := offsetDep(bo.X, map[ssa.Value]bool{}) || offsetDep(bo.Y, map[ssa.Value]bool{})
+			return sd && od
+		})
+	}
+	n := 0
+	for _, in := range append(allInstrs(read, innerRead), allInstrs(read, isVB)...) {
+		n++
+		what := "read of the wrapped reader"
+		if isVB(in) {
+			what = "block validation"
+		}
+		c.Check(positionGuard(in), "R09.8", rname, what+" decided by the position relative to the signed size", core.InstrPos(in),
+			"dominated by a branch on a value computed from the reader's offset and the signed size of the file",
+			"Read never compares its position with the size the signature records: at the end of a file whose size is a multiple of the block size it asks for the validation of a block that does not exist (an undamaged file is rejected), and nothing stops it at the signed end of a file that has grown")
+	}
+	c.Floor("R09.8", "validations and wrapped reads in Read", n, 2)
+	for _, in := range allInstrs(read, innerRead) {
+		cl := in.(*ssa.Call)
+		buf := cl.Call.Args[len(cl.Call.Args)-1]
+		if core.CalleeName(cl) == "io.ReadFull" || core.CalleeName(cl) == "io.ReadAtLeast" {
+			buf = cl.Call.Args[1]
+		}
+		cut := false
+		for _, o := range core.Origins(buf) {
+			if sl, ok := o.(*ssa.Slice); ok && sl.High != nil && signedDep(sl.High, 2, map[ssa.Value]bool{}) {
+				cut = true
+			}
+		}
+		if !cut {
+			// or: the read happens only where the caller's buffer was found to fit
+			cut = hasGuard(in, func(g core.Guard) bool {
+				bo, ok := isCmp(g.Cond)
+				if !ok {
+					return false
+				}
+				isLen := func(v ssa.Value) bool {
+					found := false
+					var walk func(v ssa.Value, d int)
+					walk = func(v ssa.Value, d int) {
+						if d > 4 || v == nil {
+							return
+						}
+						switch x := v.(type) {
+						case *ssa.Call:
+							if b, ok := x.Call.Value.(*ssa.Builtin); ok && b.Name() == "len" {
+								found = true
+							}
+						case *ssa.Convert:
+							walk(x.X, d+1)
+						case *ssa.BinOp:
+							walk(x.X, d+1)
+							walk(x.Y, d+1)
+						}
+					}
+					walk(v, 0)
+					return found
+				}
+				return (isLen(bo.X) && signedDep(bo.Y, 2, map[ssa.Value]bool{})) || (isLen(bo.Y) && signedDep(bo.X, 2, map[ssa.Value]bool{}))
+			})
+		}
+		c.Check(cut, "R09.8", rname, "the buffer handed to the wrapped reader ends at the signed size", core.InstrPos(in),
+			"the buffer is cut at a bound computed from the signed size (or the read is conditional on the buffer fitting)",
+			"the caller's whole buffer is handed to the wrapped reader: bytes a damaged file carries past its signed size, inside the last block, are returned although no hash covers them (a whole-file copy then produces a longer file, silently)")
+	}
+	// (c)
+	isEOFGuard := func(ret ssa.Instruction, call *ssa.Call, name string) bool {
+		return hasGuard(ret, func(g core.Guard) bool {
+			bo, ok := g.Cond.(*ssa.BinOp)
+			if !ok || (bo.Op != token.EQL && bo.Op != token.NEQ) {
+				return false
+			}
+			if (bo.Op == token.NEQ) != g.Val {
+				return false
+			}
+			isSentinel := func(v ssa.Value) bool {
+				ld, ok := v.(*ssa.UnOp)
+				if !ok || ld.Op != token.MUL {
+					return false
+				}
+				gl, ok := ld.X.(*ssa.Global)
+				return ok && strings.HasSuffix(gl.String(), name)
+			}
+			return (isSentinel(bo.X) && isResultOf(bo.Y, call)) || (isSentinel(bo.Y) && isResultOf(bo.X, call))
+		})
+	}
+	nb := 0
+	for _, in := range allInstrs(vb, innerRead) {
+		cl := in.(*ssa.Call)
+		nb++
+		full := core.CalleeName(cl) == "io.ReadFull" || core.CalleeName(cl) == "io.ReadAtLeast"
+		okAll := true
+		var where ssa.Instruction
+		for _, rs := range core.Returns(vb, -1) {
+			if rs.Val == nil || !isResultOf(rs.Val, cl) {
+				continue
+			}
+			if core.FindPath(vb, cl, isInstr(rs.Ret), nil) == nil {
+				continue
+			}
+			// a return of the verdict map's entry is not a return of this error even if both live in `err`
+			direct := false
+			for _, o := range core.Origins(core.StoredHere(rs.Val)) {
+				if ex, ok := o.(*ssa.Extract); ok && ex.Tuple == ssa.Value(cl) {
+					direct = true
+				}
+			}
+			if !direct {
+				continue
+			}
+			g := isEOFGuard(rs.Ret, cl, "io.EOF")
+			if full {
+				g = g && isEOFGuard(rs.Ret, cl, "io.ErrUnexpectedEOF")
+			}
+			if !g {
+				okAll, where = false, rs.Ret
+			}
+		}
+		o := c.Check(okAll, "R09.8", core.FnName(vb), "a block that comes back short is judged, not taken for the end of the file", core.InstrPos(in),
+			"the error of the read that fills the block buffer is returned only when it is neither io.EOF nor (for a full read) io.ErrUnexpectedEOF",
+			"validateBlock returns the block read's error as it is: when the file ends where a signed block should begin the error is io.EOF, Read passes it on, and the consumer takes a truncated file for a complete one")
+		if where != nil {
+			o.Detail += " (returned at " + c.P.Pos(where.Pos()) + ")"
+		}
+	}
+	c.Floor("R09.8", "reads that fill the block buffer in validateBlock", nb, 1)
 }
